@@ -14,6 +14,7 @@ import Driver.OpsManif
 import Driver.OpsDiff
 import Driver.OpsConc
 import Driver.OpsConv
+import Driver.OpsHist
 
 namespace Drv
 
@@ -44,7 +45,7 @@ def runAll (op grp prec : String) (args : Array String) : String :=
       fun _ => runSpline op grp prec args, fun _ => runSplineSM op grp prec args, fun _ => runFit op grp prec args,
       fun _ => runMem op grp prec args, fun _ => runSparse op grp prec args,
       fun _ => runManif op grp prec args, fun _ => runDiff op grp prec args,
-      fun _ => runConc op grp prec args, fun _ => runConv op grp prec args] with
+      fun _ => runConc op grp prec args, fun _ => runConv op grp prec args, fun _ => runHist op grp prec args] with
   | some s => s
   | none =>
     if prec == "f64" then
